@@ -113,6 +113,18 @@ class C10(HistoryCheck):
             if anys:
                 v = s.choice(SPECIAL_VALUES + [["selfref", "direct"], ["selfref", "list"]])
                 return {"op": "set", "on": {"i": iid}, "a": s.choice(anys), "v": v, "id": world.fresh_id()}
+        if world.insts and s.chance(0.08):
+            # nested keyed item loses its key attribute (legal: `del item.k`); the parent's repr must cope
+            iid = gen.pick_inst()
+            inst = world.insts[iid]
+            role = world.role_of(inst)
+            for n, a in world.info(role).items():
+                cur = inst.__dict__.get(n)
+                if a["kind"] == "list_kitem" and cur:
+                    return {"op": "del", "on": {"i": iid, "path": [["a", n], ["i", 0]]}, "a": "k", "id": world.fresh_id()}
+                if a["kind"] == "dict_kitem" and cur:
+                    k0 = next(iter(cur))
+                    return {"op": "del", "on": {"i": iid, "path": [["a", n], ["k", k0]]}, "a": "k", "id": world.fresh_id()}
         return gen.gen()
 
     def step(self, ctx, world, op, idx):
